@@ -10,7 +10,9 @@
 (* with the same token table) and `events` the (prefix, event, token)       *)
 (* stream ijson produced for those bytes.                                   *)
 (*   L1: Violated(input, got) = {}      (property C19, FastParse.tla)       *)
-(*   L2: got = Code(input)              (transcription of the code)         *)
+(*   L2: got = Code(input)              (transcription of the code; printed  *)
+(*       also when L1 fails: under TraceFastParse.pinned.cfg it tells       *)
+(*       whether a violating result is the one of the code as it is)        *)
 (*   L2: Events(tree) = events          (the model's ijson is ijson)        *)
 (* Prints <<"V", id, 1, "L1", clauses>>, <<"V", id, 1|2, "L2", {}>> and      *)
 (* <<"DONE", #items, #items>>.                                              *)
@@ -18,7 +20,7 @@
 EXTENDS FastParse, Json, IOUtils
 
 NoInputs == <<>>
-Items == JsonDeserialize(IOEnv.VERIF_TRACES)
+Recorded == JsonDeserialize(IOEnv.VERIF_TRACES)
 ToSet(s) == {s[i] : i \in 1..Len(s)}
 
 NReq(r) == Req(ToSet(r.props), ToSet(r.lists), ToSet(r.objs))
@@ -54,13 +56,13 @@ Check(it) ==
         l1 == Violated(inpt, got)
         l2 == got = Code(inpt)
     IN /\ IF l1 = {} THEN TRUE ELSE PrintT(<<"V", it.id, 1, "L1", l1>>)
-       /\ IF l1 # {} \/ l2 THEN TRUE ELSE PrintT(<<"V", it.id, 1, "L2", {}>>)
+       /\ IF l2 THEN TRUE ELSE PrintT(<<"V", it.id, 1, "L2", {}>>)      \* the driver ignores it for cases with an L1 verdict
        /\ IF EventsOk(it) THEN TRUE ELSE PrintT(<<"V", it.id, 2, "L2", {}>>)
 
-TNext == /\ i <= Len(Items)
-         /\ Check(Items[i])
+TNext == /\ i <= Len(Recorded)
+         /\ Check(Recorded[i])
          /\ i' = i + 1
-         /\ IF i < Len(Items) THEN TRUE ELSE PrintT(<<"DONE", Len(Items), Len(Items)>>)
+         /\ IF i < Len(Recorded) THEN TRUE ELSE PrintT(<<"DONE", Len(Recorded), Len(Recorded)>>)
          /\ UNCHANGED vars
 
 TSpec == TInit /\ [][TNext]_<<vars, i>>
